@@ -940,7 +940,10 @@ def mutable_attrs(trees: list[ast.Module]) -> set[str]:
                 # anything defined in a class body (properties, methods, class attributes) is not a plain field
                 for m in fn.body:
                     if isinstance(m, (ast.FunctionDef, ast.AsyncFunctionDef)):
-                        out.add(m.name)
+                        # a property (any decorator but staticmethod / classmethod) computes a value on every read; a plain
+                        # method read through the instance is a bound method, stable unless the name is stored to (found below)
+                        if any(not (isinstance(d, ast.Name) and d.id in ('staticmethod', 'classmethod')) for d in m.decorator_list):
+                            out.add(m.name)
                     for t in (m.targets if isinstance(m, ast.Assign) else [m.target] if isinstance(m, ast.AnnAssign) else []):
                         if isinstance(t, ast.Name):
                             out.add(t.id)
@@ -1076,7 +1079,38 @@ def _continue_to_nest(body: list[ast.stmt]) -> list[ast.stmt] | None:
     return None if _has_jump(out) or not out else out
 
 
+def _local_const_tables(fn: ast.AST) -> dict[str, ast.expr]:
+    """Locals bound once to a tuple / list literal of plain names, attribute reads and constants (rows of such), whose
+    root names are themselves bound at most once (parameters, loop-free single assignments) and that are only iterated."""
+    if not isinstance(fn, (ast.FunctionDef, ast.AsyncFunctionDef)):
+        return {}
+    stores: dict[str, int] = {}
+    for n in _own_nodes(fn):
+        if isinstance(n, ast.Name) and isinstance(n.ctx, (ast.Store, ast.Del)):
+            stores[n.id] = stores.get(n.id, 0) + 1
+    out: dict[str, ast.expr] = {}
+    for st in fn.body:
+        if isinstance(st, ast.Assign) and len(st.targets) == 1 and isinstance(st.targets[0], ast.Name) and isinstance(st.value, (ast.Tuple, ast.List)) and st.value.elts:
+            nm = st.targets[0].id
+            v = st.value
+            if stores.get(nm) != 1:
+                continue
+            if not all(_simple(x) or (isinstance(x, ast.Tuple) and x.elts and all(_simple(y) for y in x.elts)) for x in v.elts):
+                continue
+            roots = {y.id for x in ast.walk(v) for y in [x] if isinstance(y, ast.Name)}
+            if any(stores.get(r, 0) > 1 for r in roots):
+                continue
+            uses = [x for x in ast.walk(fn) if isinstance(x, ast.Name) and x.id == nm and isinstance(x.ctx, ast.Load)]
+            iters = [x for x in ast.walk(fn) if isinstance(x, ast.For) and isinstance(x.iter, ast.Name) and x.iter.id == nm]
+            if uses and len(uses) == len(iters) and isinstance(v, ast.Tuple):
+                out[nm] = v
+    return out
+
+
 def _unroll(fn: ast.AST, consts: dict[str, ast.expr], log: list[str]) -> None:
+    local_tabs = _local_const_tables(fn)
+    if local_tabs:
+        consts = {**consts, **local_tabs}
     changed = True
     rounds = 0
     while changed and rounds < 3:
@@ -1160,6 +1194,16 @@ def _unroll(fn: ast.AST, consts: dict[str, ast.expr], log: list[str]) -> None:
                         i += len(new)
                         continue
                 i += 1
+
+
+def _drop_dead_tables(fn: ast.AST, names: set[str]) -> None:
+    for _o, blk in list(_blocks(fn)):
+        for st in list(blk):
+            if isinstance(st, ast.Assign) and len(st.targets) == 1 and isinstance(st.targets[0], ast.Name) and st.targets[0].id in names \
+                    and sum(1 for x in ast.walk(fn) if isinstance(x, ast.Name) and x.id == st.targets[0].id) == 1:
+                blk.remove(st)
+                if not blk:
+                    blk.append(ast.copy_location(ast.Pass(), st))
 
 
 LOG_METHODS = {'debug', 'info', 'warning', 'warn', 'error', 'exception', 'critical', 'log'}
@@ -1387,7 +1431,10 @@ def run(tree: ast.Module, mutable: set[str] | None = None, modname: str = '') ->
         _hoist_walrus(fn, log)
         _next_to_loop(fn, log)
         _drop_else(fn)
+        lt_ = set(_local_const_tables(fn))
         _unroll(fn, consts, log)
+        if lt_:
+            _drop_dead_tables(fn, lt_)
         _fold(fn, keep)
         for _owner, blk in _blocks(fn):
             _copy_prop(blk, mutable, fn.name == '__init__', keep)
